@@ -950,6 +950,11 @@ func c19ErrText(err error) string {
 func c19RunDs(ds datasource.DataSource) (string, int) {
 	ctx, cancel := context.WithTimeout(context.Background(), 8*time.Second)
 	defer cancel()
+	// an engine can be executed again and again: a first execution that stops after one row, then the one that is
+	// summarised (a parsed engine holding once-only state differs here from the directly assembled one)
+	if pre, perr := ds.Execute(ctx, c19From, c19To); perr == nil {
+		_, _ = pre.Data().Limit(1).Collect(ctx)
+	}
 	res, err := ds.Execute(ctx, c19From, c19To)
 	if err != nil {
 		return "exec-err " + c19ErrText(err), 0
@@ -969,6 +974,9 @@ func c19RunDs(ds datasource.DataSource) (string, int) {
 func c19RunRds(ds report.DataSource) (string, int) {
 	ctx, cancel := context.WithTimeout(context.Background(), 8*time.Second)
 	defer cancel()
+	if pre, perr := ds.Execute(ctx, c19From, c19To); perr == nil {
+		_, _ = pre.Stream().Limit(1).Collect(ctx)
+	}
 	res, err := ds.Execute(ctx, c19From, c19To)
 	if err != nil {
 		return "exec-err " + c19ErrText(err), 0
